@@ -77,7 +77,15 @@ func runWorkload(t *rapid.T, run c04Run, st *vfkit.Collector, label string) {
 		}
 		qq := q.Msg.Q[0]
 		h := KeyedRData(qq.Name, qq.Type, qq.Class, "delay")
-		a := UpAction{Reply: EncodeMsg(KeyedAnswer(q.Msg, q.Up.Tag, uint32(q.Seq), run.ttl, 0))}
+		km := KeyedAnswer(q.Msg, q.Up.Tag, uint32(q.Seq), run.ttl, 0)
+		km.Ns, km.Ar = RichExtras(qq.Name)
+		for i := range km.Ns {
+			km.Ns[i].TTL = run.ttl
+		}
+		for i := range km.Ar {
+			km.Ar[i].TTL = run.ttl
+		}
+		a := UpAction{Reply: EncodeMsg(km)}
 		switch h[0] % 8 {
 		case 0:
 			a.Delay = time.Duration(h[1]%40) * time.Millisecond // reordering
@@ -176,6 +184,11 @@ func runWorkload(t *rapid.T, run c04Run, st *vfkit.Collector, label string) {
 		if !bytes.Equal(rd, KeyedRData(tr.name, tr.typ, tr.class, "up"+itoa(tr.up))) || tag != "up"+itoa(tr.up) {
 			wrong.Add(1)
 			fail("MIX-UP via %s: the response to %s type %d class %d (upstream up%d) carries the answer of another question (tag %q rdata %x)", via, sent, tr.typ, tr.class, tr.up, tag, rd)
+			return
+		}
+		if mm := ExtrasMismatch(d, tr.name); mm != "" {
+			wrong.Add(1)
+			fail("MIX-UP via %s: the authority/additional records in the response to %s type %d are not the ones the upstream sent for that name: %s", via, sent, tr.typ, mm)
 		}
 	}
 	insecure := &tls.Config{InsecureSkipVerify: true}
